@@ -361,3 +361,25 @@ func TestD12_MlucOffsets(t *testing.T) {
 }
 
 var _ = io.EOF
+
+// D14 (C06): a PNG whose iCCP chunk holds the profile name, its terminator and the compression
+// method but not a single byte of compressed data. One byte of stream gives metadata plus a
+// profile error; none made Load fail as a whole ("invalid ICC profile chunk length").
+func TestD14_PNGEmptyICCStream(t *testing.T) {
+	var b bytes.Buffer
+	b.Write([]byte{0x89, 'P', 'N', 'G', 0x0D, 0x0A, 0x1A, 0x0A})
+	b.Write(pngChunk("IHDR", append(append(be32(3), be32(2)...), 8, 2, 0, 0, 0)))
+	b.Write(pngChunk("iCCP", []byte("p\x00\x00")))
+	b.Write(pngChunk("IDAT", []byte{1, 2, 3}))
+	b.Write(pngChunk("IEND", nil))
+	md, _, err := pngmeta.Load(bytes.NewReader(b.Bytes()))
+	if err != nil || md == nil {
+		t.Fatalf("Load: md=%v err=%v; want the basic metadata and a profile error", md != nil, err)
+	}
+	if md.PixelWidth != 3 || md.PixelHeight != 2 {
+		t.Fatalf("dimensions %dx%d", md.PixelWidth, md.PixelHeight)
+	}
+	if d, e := md.ICCProfileData(); e == nil || d != nil {
+		t.Fatalf("ICCProfileData = %d bytes, err %v; want an error", len(d), e)
+	}
+}
